@@ -2,6 +2,10 @@
 KEYS = [b"a", b"b", b"c", b"d", b"e", b"k", b"key", b"x y", b"", b"k" * 17, b"k" * 33]
 ESC_SPELL = {b"a": [b"\\u0061", b"a"], b"b": [b"\\u0062", b"b"], b"x y": [b"x\\u0020y", b"x y"], b"k": [b"\\u006b", b"k"]}
 EXTRA_KEYS = [b"a\\nb", b"q\\\"r", b"t\\\\u", b"\\u00e9", b"\\ud83d\\ude00", b"s\\/l"]
+LONG_KEYS = [b"abcdefghijklmnopqrstuvwxyz_0123456789_member", b"L" * 33, b"long key with spaces and more than 32 bytes"]
+for _k in LONG_KEYS:
+    ESC_SPELL[_k] = [_k, b"\\u%04x" % _k[0] + _k[1:], _k[:5] + b"\\u%04x" % _k[5] + _k[6:], _k[:-1] + b"\\u%04x" % _k[-1]]
+KEYS += LONG_KEYS
 
 
 def gen(rng, depth=0, maxdepth=4, kinds=None):
